@@ -544,6 +544,9 @@ class Program:
                 for c in self.mro(base):
                     if isinstance(c, ClassInfo) and expr.attr in c.class_attrs:
                         return self.consteval(c.class_attrs[expr.attr], c.module, None, c)
+            if base is not None and not isinstance(base, (ClassInfo, EnumVal, FuncInfo, str, bytes, int, float, tuple, list, dict)) \
+                    and hasattr(base, "__dict__") and expr.attr in vars(base):
+                return vars(base)[expr.attr]
             if isinstance(base, EnumVal) and expr.attr == "value":
                 return base.value
             if isinstance(base, EnumVal) and expr.attr == "name":
